@@ -127,7 +127,7 @@ Section CompactSeq.
 
   Lemma stream_pos : (0 < length (stream txs))%nat.
   Proof.
-    destruct txs as [|t tl]; [congruence|]. pose proof (stream_nonempty t tl) as H.
+    clear Hns Hc Hlen. destruct txs as [|t tl]; [congruence|]. pose proof (stream_nonempty t tl) as H.
     destruct (stream (t :: tl)); [congruence|cbn [length]; lia].
   Qed.
 
@@ -295,3 +295,403 @@ Section BlobSeq.
     eexists _, _. split; [reflexivity|]. repeat split; assumption.
   Qed.
 End BlobSeq.
+
+(* ================================================================== *)
+(* What a parsed sequence looks like (item 1, per sequence)            *)
+(* ================================================================== *)
+
+(* non-empty; a sequence start followed by non-start shares; one namespace; a padding
+   sequence is a single share, any other has the share count its first share declares *)
+Definition seq_tile_ok (q : sequence) : Prop :=
+  exists f rest, sq_shares q = f :: rest /\ sh_start f = true /\
+    Forall (fun s => sh_start s = false) rest /\
+    Forall (fun s => sh_ns s = sq_ns q) (sq_shares q) /\
+    ((seq_is_padding q = true /\ rest = []) \/
+     (seq_is_padding q = false /\ number_of_shares_needed f = Ok (lenN (sq_shares q)))).
+
+Definition seq_good (q : sequence) : Prop := seq_wf q /\ valid_sequence_len q = Ok tt.
+
+Lemma seq_good_tile_ok q : seq_good q -> seq_tile_ok q.
+Proof.
+  intros [(f & rest & Hq & Hf & Hn & Hr) Hv]. exists f, rest. split; [exact Hq|]. split; [exact Hf|].
+  split; [eapply Forall_impl; [|exact Hr]; intros s [H _]; exact H|].
+  split.
+  - rewrite Hq. constructor; [exact Hn|]. eapply Forall_impl; [|exact Hr]. intros s [_ H]. exact H.
+  - unfold valid_sequence_len in Hv. rewrite Hq in Hv. destruct (seq_is_padding q) eqn:Ep.
+    + left. split; [reflexivity|]. unfold seq_is_padding in Ep. rewrite Hq in Ep. destruct rest; [reflexivity|discriminate].
+    + right. split; [reflexivity|]. destruct (number_of_shares_needed f) as [n| |]; try discriminate.
+      cbn [bind] in Hv. rewrite <- Hq in Hv. destruct (lenN (sq_shares q) =? n) eqn:E; [|discriminate].
+      apply N.eqb_eq in E. rewrite E. reflexivity.
+Qed.
+
+(* ================================================================== *)
+(* The sequences of a layout                                           *)
+(* ================================================================== *)
+
+(* a sequence that is present iff the list [l] is non-empty *)
+Definition opt_seq {A} (l : list A) (q : sequence) : list sequence :=
+  match l with [] => [] | _ => [q] end.
+
+(* (padding shares, each its own sequence, then the blob's sequence)* *)
+Fixpoint gapped_seqs (pns : namespace) (pver : N) (l : list (nat * blob)) : list sequence :=
+  match l with
+  | [] => []
+  | (g, b) :: tl => repeat (pad_seq pns pver) g ++ blob_seq b :: gapped_seqs (b_ns b) (b_ver b) tl
+  end.
+
+Definition tx_seq (normals : list bytes) : sequence := compact_seq tx_ns normals.
+Definition pfb_seq (thr : N) (normals : list bytes) (btxs : list blob_tx) : sequence :=
+  compact_seq pfb_ns (wrappers (lay_placed thr normals btxs) 0 btxs).
+
+Definition layout_seqs (thr : N) (normals : list bytes) (btxs : list blob_tx) : list sequence :=
+  opt_seq normals (tx_seq normals) ++ opt_seq btxs (pfb_seq thr normals btxs)
+  ++ gapped_seqs primary_reserved_padding_ns 0
+       (gaps_of (lenN (tx_run normals ++ pfb_run thr normals btxs)) (lay_placed thr normals btxs))
+  ++ repeat (pad_seq tail_padding_ns 0)
+       (N.to_nat (lay_side thr normals btxs * lay_side thr normals btxs - lenN (lay_body thr normals btxs))).
+
+(* the blobs in square order *)
+Definition square_blobs (btxs : list blob_tx) : list blob := map lb_blob (sorted_blobs btxs).
+
+Definition data_seqs (thr : N) (normals : list bytes) (btxs : list blob_tx) : list sequence :=
+  opt_seq normals (tx_seq normals) ++ opt_seq btxs (pfb_seq thr normals btxs)
+  ++ map blob_seq (square_blobs btxs).
+
+Lemma concat_map_app {A B} (f : A -> list B) a b : concat (map f (a ++ b)) = concat (map f a) ++ concat (map f b).
+Proof. rewrite map_app, concat_app. reflexivity. Qed.
+
+Definition keep_data (s : sequence) : bool := negb (true && seq_is_padding s).
+
+Lemma filter_all {A} (f : A -> bool) l : Forall (fun x => f x = true) l -> filter f l = l.
+Proof. induction 1 as [|x l Hx _ IH]; [reflexivity|]. cbn [filter]. rewrite Hx, IH. reflexivity. Qed.
+
+Lemma filter_none {A} (f : A -> bool) l : Forall (fun x => f x = false) l -> filter f l = [].
+Proof. induction 1 as [|x l Hx _ IH]; [reflexivity|]. cbn [filter]. rewrite Hx, IH. reflexivity. Qed.
+
+Lemma filter_pad_seqs ns ver n : length ns = 29%nat -> ver <= 127 ->
+  filter keep_data (repeat (pad_seq ns ver) n) = [].
+Proof.
+  intros Hns Hver. apply filter_none, Forall_repeat. unfold keep_data. rewrite pad_seq_is_padding by assumption. reflexivity.
+Qed.
+
+Lemma good_pad_seqs ns ver n : length ns = 29%nat -> ver <= 127 -> Forall seq_good (repeat (pad_seq ns ver) n).
+Proof. intros Hns Hver. apply Forall_repeat. split; [apply pad_seq_wf|apply pad_seq_valid]; assumption. Qed.
+
+(* ---- the blob region ---- *)
+Definition blob_good (b : blob) : Prop := blob_ok b /\ blob_fits b.
+
+Lemma gapped_concat : forall gl pns pver,
+  concat (map sq_shares (gapped_seqs pns pver gl)) = gapped pns pver gl.
+Proof.
+  induction gl as [|[g b] gl IH]; intros pns pver; [reflexivity|]. cbn [gapped_seqs gapped].
+  rewrite concat_map_app, concat_pad_seqs. cbn [map concat blob_seq sq_shares]. rewrite IH. reflexivity.
+Qed.
+
+Lemma gapped_good : forall gl pns pver, length pns = 29%nat -> pver <= 127 ->
+  Forall (fun gb => blob_good (snd gb)) gl -> Forall seq_good (gapped_seqs pns pver gl).
+Proof.
+  induction gl as [|[g b] gl IH]; intros pns pver Hp Hv H; [constructor|].
+  apply Forall_cons_iff in H as [[Hok Hfit] H]. cbn [snd] in Hok, Hfit. cbn [gapped_seqs].
+  apply Forall_app. split; [apply good_pad_seqs; assumption|]. constructor.
+  - split; [apply blob_seq_wf, Hok|apply blob_seq_valid; assumption].
+  - apply IH; [apply Hok|apply (blob_ok_ver b Hok)|exact H].
+Qed.
+
+Lemma gapped_filter : forall gl pns pver, length pns = 29%nat -> pver <= 127 ->
+  Forall (fun gb => blob_good (snd gb)) gl ->
+  filter keep_data (gapped_seqs pns pver gl) = map blob_seq (map snd gl).
+Proof.
+  induction gl as [|[g b] gl IH]; intros pns pver Hp Hv H; [reflexivity|].
+  apply Forall_cons_iff in H as [[Hok Hfit] H]. cbn [snd] in Hok, Hfit. cbn [gapped_seqs map snd].
+  rewrite filter_app, filter_pad_seqs by assumption. cbn [app filter]. unfold keep_data at 1.
+  rewrite (blob_seq_not_padding b Hok). cbn [andb negb]. f_equal.
+  apply IH; [apply Hok|apply (blob_ok_ver b Hok)|exact H].
+Qed.
+
+(* ---- the two compact runs ---- *)
+Lemma opt_seq_concat {A} (l : list A) ns txs : (l = [] -> txs = []) ->
+  concat (map sq_shares (opt_seq l (compact_seq ns txs))) = compact_spec_ix ns 0 txs.
+Proof.
+  intros H. destruct l as [|x l]; cbn [opt_seq map concat compact_seq sq_shares].
+  - rewrite (H eq_refl). symmetry. apply compact_spec_ix_nil.
+  - apply app_nil_r.
+Qed.
+
+Lemma opt_seq_good {A} (l : list A) ns txs : length ns = 29%nat -> is_compact_ns ns = true ->
+  (l <> [] -> txs <> []) -> lenN (stream txs) < 4294967296 ->
+  Forall seq_good (opt_seq l (compact_seq ns txs)).
+Proof.
+  intros Hns Hc H Hl. destruct l as [|x l]; [constructor|]. assert (Hne : txs <> []) by (apply H; discriminate).
+  constructor; [|constructor]. split; [apply compact_seq_wf|apply compact_seq_valid]; assumption.
+Qed.
+
+Lemma opt_seq_filter {A} (l : list A) ns txs : length ns = 29%nat -> is_compact_ns ns = true ->
+  (l <> [] -> txs <> []) -> lenN (stream txs) < 4294967296 ->
+  filter keep_data (opt_seq l (compact_seq ns txs)) = opt_seq l (compact_seq ns txs).
+Proof.
+  intros Hns Hc H Hl. destruct l as [|x l]; [reflexivity|]. assert (Hne : txs <> []) by (apply H; discriminate).
+  cbn [opt_seq filter]. unfold keep_data. rewrite compact_seq_not_padding by assumption. reflexivity.
+Qed.
+
+Lemma wrappers_nil_iff placed : forall btxs pi, (btxs = [] -> wrappers placed pi btxs = []) /\
+  (btxs <> [] -> wrappers placed pi btxs <> []).
+Proof. intros [|t tl] pi; cbn [wrappers]; split; intros H; congruence. Qed.
+
+(* ================================================================== *)
+(* The estimate bound keeps every declared length inside a uint32      *)
+(* ================================================================== *)
+
+Section Bounds.
+  Local Ltac Zify.zify_post_hook ::= Z.div_mod_to_equations.
+
+  Lemma sparse_needed_fits n : sparse_shares_needed n < 2097152 -> n <= 4294967295.
+  Proof.
+    unfold sparse_shares_needed. destruct (n =? 0) eqn:E0; [lia|]. destruct (n <? 478) eqn:E1; [lia|].
+    destruct (0 <? (n - 478) mod 482); lia.
+  Qed.
+
+  Lemma compact_needed_fits n : compact_shares_needed n < 2097152 -> n < 4294967296.
+  Proof.
+    unfold compact_shares_needed. destruct (n =? 0) eqn:E0; [lia|]. destruct (n <? 474) eqn:E1; [lia|].
+    destruct (0 <? (n - 474) mod 478); lia.
+  Qed.
+End Bounds.
+
+Lemma compact_count_fits txs : compact_count txs < 2097152 -> lenN (stream txs) < 4294967296.
+Proof. unfold compact_count, lenN. rewrite cneeded_compact. apply compact_needed_fits. Qed.
+
+Section LayoutFacts.
+  Variables (thr : N) (normals : list bytes) (btxs : list blob_tx).
+  Hypothesis Ht : 1 <= thr.
+  Hypothesis Hok : Forall lay_btx_ok btxs.
+  Hypothesis Hest : estimate thr normals btxs < 2097152.
+
+  Lemma tx_stream_fits : lenN (stream normals) < 4294967296.
+  Proof. clear Ht Hok. apply compact_count_fits. unfold estimate in Hest. lia. Qed.
+
+  Lemma pfb_stream_fits : lenN (stream (wrappers (lay_placed thr normals btxs) 0 btxs)) < 4294967296.
+  Proof.
+    clear Hok. apply compact_count_fits.
+    pose proof (compact_count_wrappers _ btxs (placed_index_small thr normals btxs Ht Hest)) as H.
+    unfold estimate in Hest. lia.
+  Qed.
+
+  Lemma placed_good : Forall (fun e => blob_good (lb_blob e)) (lay_placed thr normals btxs).
+  Proof.
+    destruct (placed_facts thr normals btxs Hok) as (H1 & _ & _).
+    pose proof (assign_index_le thr Ht (sorted_blobs btxs) (lay_start normals btxs)) as H2.
+    assert (H3 : Forall (fun e => lb_n e = blob_share_count (lb_blob e)) (lay_placed thr normals btxs)).
+    { unfold lay_placed. apply (assign_Forall thr (fun b n => n = blob_share_count b)).
+      eapply Forall_impl; [|apply sorted_blobs_ok, Hok]. intros e [_ H]. exact H. }
+    pose proof (final_cursor_estimate thr normals btxs Ht) as H4.
+    fold (lay_placed thr normals btxs) in H2. rewrite Forall_forall in *. intros e He.
+    split; [apply H1, He|]. unfold blob_fits. apply sparse_needed_fits.
+    specialize (H2 e He). specialize (H3 e He). unfold blob_share_count in H3. lia.
+  Qed.
+
+  Lemma gaps_good k :
+    Forall (fun gb => blob_good (snd gb)) (gaps_of k (lay_placed thr normals btxs)).
+  Proof.
+    apply (proj1 (Forall_map snd blob_good _)). rewrite gaps_of_blobs.
+    apply (proj2 (Forall_map lb_blob blob_good _)). exact placed_good.
+  Qed.
+
+  Lemma square_blobs_good : Forall blob_good (square_blobs btxs).
+  Proof.
+    unfold square_blobs. rewrite <- (proj1 (placed_blobs thr normals btxs)).
+    apply (proj2 (Forall_map lb_blob blob_good _)). exact placed_good.
+  Qed.
+
+  (* the sequences concatenate to the square *)
+  Lemma layout_seqs_concat : concat (map sq_shares (layout_seqs thr normals btxs)) = layout thr normals btxs.
+  Proof.
+    rewrite layout_unfold. destruct (lay_body_eq thr normals btxs Ht Hok Hest) as [Hb _].
+    unfold tail_pad. rewrite Hb at 1. unfold layout_seqs. rewrite !concat_map_app.
+    rewrite gapped_concat, concat_pad_seqs, <- region_gapped.
+    unfold tx_seq, pfb_seq. rewrite opt_seq_concat by (intros ->; reflexivity).
+    rewrite opt_seq_concat by (apply wrappers_nil_iff).
+    unfold tx_run, pfb_run. rewrite <- !app_assoc. reflexivity.
+  Qed.
+
+  Lemma layout_seqs_good : Forall seq_good (layout_seqs thr normals btxs).
+  Proof.
+    unfold layout_seqs. repeat (apply Forall_app; split).
+    - apply opt_seq_good; [apply length_tx_ns|reflexivity|auto|apply tx_stream_fits].
+    - apply opt_seq_good; [apply length_pfb_ns|reflexivity|apply wrappers_nil_iff|apply pfb_stream_fits].
+    - apply gapped_good; [apply length_reserved_ns|lia|apply gaps_good].
+    - apply good_pad_seqs; [apply length_tail_ns|lia].
+  Qed.
+
+  Lemma layout_seqs_filter : filter keep_data (layout_seqs thr normals btxs) = data_seqs thr normals btxs.
+  Proof.
+    unfold layout_seqs, data_seqs, tx_seq, pfb_seq. rewrite !filter_app.
+    rewrite opt_seq_filter by (try apply length_tx_ns; try reflexivity; try apply tx_stream_fits; auto).
+    rewrite opt_seq_filter by (try apply length_pfb_ns; try reflexivity; try apply pfb_stream_fits; apply wrappers_nil_iff).
+    rewrite gapped_filter by (try apply length_reserved_ns; try lia; apply gaps_good).
+    rewrite filter_pad_seqs by (try apply length_tail_ns; lia).
+    rewrite gaps_of_blobs, app_nil_r. unfold square_blobs. rewrite (proj1 (placed_blobs thr normals btxs)). reflexivity.
+  Qed.
+End LayoutFacts.
+
+(* ================================================================== *)
+(* The theorems                                                        *)
+(* ================================================================== *)
+
+(* ---- Item 1: parsing tiles the square ---- *)
+Theorem layout_tiling thr normals btxs : 1 <= thr -> Forall lay_btx_ok btxs ->
+  estimate thr normals btxs < 2097152 ->
+  let sq := layout thr normals btxs in
+  let seqs := layout_seqs thr normals btxs in
+  parse_shares sq false = Ok seqs /\ concat (map sq_shares seqs) = sq /\ Forall seq_tile_ok seqs.
+Proof.
+  intros Ht Hok Hest sq seqs.
+  pose proof (layout_seqs_concat thr normals btxs Ht Hok Hest) as Hc.
+  pose proof (layout_seqs_good thr normals btxs Ht Hok Hest) as Hg. fold seqs in Hc, Hg. fold sq in Hc.
+  split; [|split; [exact Hc|]].
+  - rewrite <- Hc. rewrite parse_shares_seqs.
+    + f_equal. apply filter_all, Forall_forall. intros q _. reflexivity.
+    + eapply Forall_impl; [|exact Hg]. intros q [H _]. exact H.
+    + eapply Forall_impl; [|exact Hg]. intros q [_ H]. exact H.
+  - eapply Forall_impl; [|exact Hg]. exact seq_good_tile_ok.
+Qed.
+
+(* ---- Item 2: with padding ignored, exactly the data sequences, blobs in square order ---- *)
+Theorem layout_sequences thr normals btxs : 1 <= thr -> Forall lay_btx_ok btxs ->
+  estimate thr normals btxs < 2097152 ->
+  let bs := square_blobs btxs in
+  parse_shares (layout thr normals btxs) true =
+    Ok (opt_seq normals (tx_seq normals) ++ opt_seq btxs (pfb_seq thr normals btxs) ++ map blob_seq bs)
+  /\ Permutation bs (concat (map btx_blobs btxs)) /\ StronglySorted blob_le bs
+  /\ bs = map lb_blob (lay_placed thr normals btxs).
+Proof.
+  intros Ht Hok Hest bs.
+  pose proof (layout_seqs_concat thr normals btxs Ht Hok Hest) as Hc.
+  pose proof (layout_seqs_good thr normals btxs Ht Hok Hest) as Hg.
+  destruct (placed_blobs thr normals btxs) as (Hp1 & Hp2 & Hp3).
+  split; [|unfold bs, square_blobs; rewrite <- Hp1; repeat split; assumption].
+  rewrite <- Hc. rewrite parse_shares_seqs.
+  - f_equal. exact (layout_seqs_filter thr normals btxs Ht Hok Hest).
+  - eapply Forall_impl; [|exact Hg]. intros q [H _]. exact H.
+  - eapply Forall_impl; [|exact Hg]. intros q [_ H]. exact H.
+Qed.
+
+(* ---- Item 3: payloads ---- *)
+(* any blob NewBlob accepts, share version 0 or 1: Sequence.RawData is the blob's data.  For
+   version 1 the first share's raw data begins after the 20 signer bytes (GetSigner returns
+   them), so the signer is not part of the payload and the declared length is the data's. *)
+Theorem blob_seq_payload b : blob_ok b ->
+  sequence_raw_data (blob_seq b) = Ok (b_data b) /\
+  exists f rest, sq_shares (blob_seq b) = f :: rest /\ sh_seq_len f = lenN (b_data b) /\
+    sh_signer f = b_signer b.
+Proof.
+  intros Hok. split; [apply blob_seq_raw_data, Hok|].
+  destruct (blob_seq_first b Hok) as (f & rest & E & _ & H1 & H2). exists f, rest. repeat split; assumption.
+Qed.
+
+(* a compact sequence: Sequence.RawData is the stream of length-prefixed transactions *)
+Theorem compact_seq_payload ns txs : length ns = 29%nat -> is_compact_ns ns = true -> txs <> [] ->
+  lenN (stream txs) < 4294967296 ->
+  sequence_raw_data (compact_seq ns txs) = Ok (stream txs).
+Proof. apply compact_seq_raw_data. Qed.
+
+Theorem layout_payloads thr normals btxs : 1 <= thr -> Forall lay_btx_ok btxs ->
+  estimate thr normals btxs < 2097152 ->
+  (normals <> [] -> sequence_raw_data (tx_seq normals) = Ok (stream normals)) /\
+  (btxs <> [] -> sequence_raw_data (pfb_seq thr normals btxs) =
+                 Ok (stream (wrappers (lay_placed thr normals btxs) 0 btxs))) /\
+  Forall (fun b => sequence_raw_data (blob_seq b) = Ok (b_data b)) (square_blobs btxs).
+Proof.
+  intros Ht Hok Hest. split; [|split].
+  - intros Hne. apply compact_seq_raw_data; [apply length_tx_ns|reflexivity|exact Hne|].
+    eapply tx_stream_fits; eassumption.
+  - intros Hne. apply compact_seq_raw_data; [apply length_pfb_ns|reflexivity| |].
+    + apply wrappers_nil_iff, Hne.
+    + eapply pfb_stream_fits; eassumption.
+  - eapply Forall_impl; [|exact (square_blobs_good thr normals btxs Ht Hok Hest)].
+    intros b [Hb _]. apply blob_seq_raw_data, Hb.
+Qed.
+
+(* ---- the same under the hypotheses of layout_shape, and for Construct ---- *)
+Definition square_tiled (thr : N) (normals : list bytes) (btxs : list blob_tx) (sq : list share) : Prop :=
+  (exists seqs, parse_shares sq false = Ok seqs /\ concat (map sq_shares seqs) = sq /\ Forall seq_tile_ok seqs) /\
+  parse_shares sq true =
+    Ok (opt_seq normals (tx_seq normals) ++ opt_seq btxs (pfb_seq thr normals btxs)
+        ++ map blob_seq (square_blobs btxs)) /\
+  (normals <> [] -> sequence_raw_data (tx_seq normals) = Ok (stream normals)) /\
+  (btxs <> [] -> sequence_raw_data (pfb_seq thr normals btxs) =
+                 Ok (stream (wrappers (lay_placed thr normals btxs) 0 btxs))) /\
+  Forall (fun b => sequence_raw_data (blob_seq b) = Ok (b_data b)) (square_blobs btxs).
+
+Theorem layout_tiled thr normals btxs m : 1 <= thr -> Forall lay_btx_ok btxs ->
+  pow2 m -> m <= 1024 -> estimate thr normals btxs <= m * m ->
+  square_tiled thr normals btxs (layout thr normals btxs).
+Proof.
+  intros Ht Hok _ Hm Hfit. assert (Hest : estimate thr normals btxs < 2097152) by nia.
+  destruct (layout_tiling thr normals btxs Ht Hok Hest) as (H1 & H2 & H3).
+  destruct (layout_sequences thr normals btxs Ht Hok Hest) as (H4 & _).
+  destruct (layout_payloads thr normals btxs Ht Hok Hest) as (H5 & H6 & H7).
+  unfold square_tiled. split; [eexists; repeat split; eassumption|]. repeat split; assumption.
+Qed.
+
+Theorem layout_construct_tiled raws max thr sq : 1 <= thr -> (max <= 1024)%Z ->
+  layout_construct raws max thr = Ok sq ->
+  exists normals btxs, split_ordered false raws [] [] = Some (normals, btxs) /\
+    sq = layout thr normals btxs /\
+    (Forall lay_btx_ok btxs -> square_tiled thr normals btxs sq).
+Proof.
+  intros Ht Hmax H. unfold layout_construct in H.
+  destruct ((0 <? max)%Z && is_pow2 max) eqn:Ecfg; cbn [negb] in H; [|discriminate].
+  apply andb_true_iff in Ecfg as [Hpos Hp2].
+  destruct (split_ordered false raws [] []) as [[normals btxs]|] eqn:Es; [|discriminate].
+  destruct (estimate thr normals btxs <=? Z.to_N max * Z.to_N max) eqn:Ee; [|discriminate].
+  injection H as <-. exists normals, btxs. split; [reflexivity|]. split; [reflexivity|].
+  intros Hok. apply (layout_tiled thr normals btxs (Z.to_N max)); try assumption;
+    [apply is_pow2_to_N; assumption|lia|lia].
+Qed.
+
+Theorem layout_build_tiled raws max thr sq kept : 1 <= thr -> (max <= 1024)%Z ->
+  layout_build raws max thr = Ok (sq, kept) ->
+  exists normals btxs, keep (Z.to_N max * Z.to_N max) thr raws [] [] [] [] = Some (normals, btxs, kept) /\
+    sq = layout thr normals btxs /\
+    (Forall lay_btx_ok btxs -> square_tiled thr normals btxs sq).
+Proof.
+  intros Ht Hmax H. unfold layout_build in H.
+  destruct ((0 <? max)%Z && is_pow2 max) eqn:Ecfg; cbn [negb] in H; [|discriminate].
+  apply andb_true_iff in Ecfg as [Hpos Hp2].
+  destruct (keep (Z.to_N max * Z.to_N max) thr raws [] [] [] []) as [[[normals btxs] kept']|] eqn:Ek; [|discriminate].
+  injection H as <- <-. exists normals, btxs. split; [reflexivity|]. split; [reflexivity|].
+  intros Hok. apply (layout_tiled thr normals btxs (Z.to_N max)); try assumption;
+    [apply is_pow2_to_N; assumption|lia|].
+  apply (keep_estimate _ _ _ _ _ _ _ _ _ _ Ek). change (estimate thr [] []) with 0. lia.
+Qed.
+
+(* ================================================================== *)
+(* Non-vacuity: a concrete input satisfying the conditions             *)
+(* ================================================================== *)
+
+(* two ordinary transactions of 3 bytes; one blob transaction (500 byte PFB) with a 2000 byte share
+   version 0 blob and a 600 byte share version 1 blob (20 byte signer), given in
+   descending namespace order; thr = 1, maximum side 4 *)
+Definition tl_blob_v0 : blob := mk_blob (ex_ns Byte.x02) (repeat Byte.x08 2000) 0 None.
+Definition tl_blob_v1 : blob := mk_blob (ex_ns Byte.x01) (repeat Byte.x07 600) 1 (Some (repeat Byte.x09 20)).
+Definition tl_normals : list bytes := [[Byte.x01; Byte.x02; Byte.x03]; [Byte.x04; Byte.x05; Byte.x06]].
+Definition tl_btxs : list blob_tx := [mk_btx (repeat Byte.x0a 500) [tl_blob_v0; tl_blob_v1]].
+
+Lemma tl_btxs_ok : Forall lay_btx_ok tl_btxs.
+Proof.
+  constructor; [|constructor]. unfold lay_btx_ok. cbn [btx_blobs tl_btxs]. constructor; [|constructor; [|constructor]].
+  - apply ex_blob_ok; [discriminate|vm_compute; reflexivity|right; left; reflexivity].
+  - split; [|vm_compute; reflexivity]. unfold blob_ok. cbn [tl_blob_v1 b_ns b_data b_ver b_signer].
+    repeat split; try reflexivity; try discriminate.
+    right. split; [reflexivity|]. eexists. split; reflexivity.
+Qed.
+
+Example tl_hyps : 1 <= 1 /\ Forall lay_btx_ok tl_btxs /\ pow2 4 /\ 4 <= 1024 /\
+  estimate 1 tl_normals tl_btxs <= 4 * 4 /\ estimate 1 tl_normals tl_btxs < 2097152.
+Proof.
+  split; [lia|]. split; [apply tl_btxs_ok|]. split; [exists 2; reflexivity|]. split; [lia|].
+  split; vm_compute; [discriminate|reflexivity].
+Qed.
+
+Example tl_tiled : square_tiled 1 tl_normals tl_btxs (layout 1 tl_normals tl_btxs).
+Proof. destruct tl_hyps as (H1 & H2 & H3 & H4 & H5 & _). exact (layout_tiled 1 tl_normals tl_btxs 4 H1 H2 H3 H4 H5). Qed.
